@@ -40,6 +40,7 @@ type Prog struct {
 	named []*types.TypeName
 
 	implCache map[*types.Func][]*types.Func
+	cg        *CallGraph
 	nFuncs    int
 }
 
